@@ -18,7 +18,7 @@ ASSUMPTIONS = ["hidden entries carry id 0 (as the Go binding builds them)", "gro
 def lists_for(l, tier, special=True):
     out = wk.list_alphabet(l, ["v1", "v2"], omit_flags=(False,))
     if special:
-        for nm in ("0", "r", "r+v1", "max", "1"):
+        for nm in ("0", "r", "r+v1", "max", "1", "sp"):
             for i in range(l):
                 out.append({"e": [[i, nm]], "omit": False})
                 if l > 1:
@@ -181,7 +181,7 @@ def run_shard(ctx, shard):
 
     def klass(chain):
         names = {c for L in chain for _, c in L["e"]}
-        if names & {"0", "r", "r+v1", "max", "1"}:
+        if names & {"0", "r", "r+v1", "max", "1", "sp"}:
             return "special-ids"
         if any(wk.is_hidden(n) for n in names):
             return "hidden-entry"
